@@ -27,4 +27,46 @@ example : (step poscDb FState.empty
     (.arith .add (Sym.ofString "length") (Sym.ofString "m") (Sym.ofString "depth") (Sym.ofString "cm") 1 200)).2
     = .ok (.qnumber ⟨Sym.ofString "length", Sym.ofString "m"⟩ 3) := by decide +kernel
 
+/-! ordering across quantity types whose unit strings coincide -/
+
+def okFlags (l : List (Except ErrKind XOut)) : List (Option ErrKind) :=
+  l.map (fun r => match r with | .ok _ => none | .error e => some e)
+
+/-- the square of a velocity in `m/s` is written `m/s2`, the unit of acceleration -/
+def velSq : List Ent := [⟨Sym.ofString "velocity", Sym.ofString "m/s", 2⟩]
+def acc : List Ent := [⟨Sym.ofString "acceleration linear", Sym.ofString "m/s2", 1⟩]
+
+open Barril.Gen in
+example : (match newDerived poscDb velSq with | .ok q => q.unit | .error _ => 0) = Sym.ofString "m/s2" := by
+  decide +kernel
+open Barril.Gen in
+example : okFlags (xoutputs (XState.fresh poscDb)
+    [.cmpq .lt velSq acc 3 2, .cmpq .ge acc velSq 2 3, .cmpq .le velSq velSq 3 4, .cmpq .gt acc acc 3 4])
+    = [some .type, some .type, none, none] := by decide +kernel
+
+/-! a category that moves to another quantity type in the middle of a history -/
+
+def strokeSpeed : List Ent :=
+  [⟨Sym.ofString "stroke", Sym.ofString "m", 1⟩, ⟨Sym.ofString "time", Sym.ofString "s", -1⟩]
+
+open Barril.Gen in
+example : okFlags (xoutputs (XState.fresh poscDb)
+    [.reg (.addCategory (Sym.ofString "stroke") (Sym.ofString "length") false),
+     .reg (.addUnit (Sym.ofString "length") (Sym.ofString "smoot") (Sym.ofString "smoot") (Sym.ofString "stroke") (17018/10000)),
+     .createU (Sym.ofString "smoot"),
+     .createDict false strokeSpeed,
+     .reg (.addCategory (Sym.ofString "stroke") (Sym.ofString "time") false),     -- rejected: registered already
+     .createDict false strokeSpeed,
+     .reg (.addCategory (Sym.ofString "stroke") (Sym.ofString "time") true),
+     .createU (Sym.ofString "smoot"),
+     .createDict false strokeSpeed,
+     .createDict true strokeSpeed,
+     .plain (.create (Sym.ofString "stroke") (Sym.ofString "m")),
+     .plain (.create (Sym.ofString "stroke") (Sym.ofString "s"))])
+    = [none, none, none, none, some .units, none, none, some .units, some .units, some .units, some .units, none] := by
+  decide +kernel
+open Barril.Gen in
+example : LegacyStable poscDb.legacy (Sym.ofString "smoot") ∧ LegacyStable poscDb.legacy (Sym.ofString "m3/d") := by
+  decide +kernel
+
 end Barril.Fail
